@@ -517,6 +517,15 @@ func (c *Context) onRestart(message *RestartMessage, behavior vivid.Behavior) {
 	// 标记正在重启。该 Actor 可能已因并发的 Kill 处于 killing 状态（例如正在等待子 Actor 结束）：
 	// 此时不能再进入重启流程，否则它会在子 Actor 结束后"复活"，而等待其 OnKilled 的父 Actor 永远无法结束
 	if !atomic.CompareAndSwapInt32(&c.state, running, killing) {
+		// 监管者在发出重启指令之前已经挂起了本 Actor 的邮箱；既然不会重启，就必须自行恢复邮箱，
+		// 否则（例如僵尸状态的兄弟 Actor、或升级链上正在停止的监管者）会永久处于挂起状态。
+		// 若正处于优雅停止中，则把立即停止传递给仍存活的子 Actor（它们可能因故障被挂起而无法处理毒杀消息）
+		c.mailbox.Resume()
+		if atomic.LoadInt32(&c.state) == killing {
+			for _, child := range c.Children() {
+				c.Kill(child, false, message.Reason)
+			}
+		}
 		return
 	}
 	c.restarting = message
